@@ -31,7 +31,8 @@ REQUIRED_REACH = ["xgcm.padding._pad_face_connections", "xgcm.grid.Grid._1d_grid
 
 SIMPLE_OPS = ["diff", "interp", "min", "max", "cumsum", "cumint", "derivative", "integrate", "average", "get_metric", "interp_like",
               "ufunc", "gu_call", "gu_override", "pad", "vec_diff", "vec_interp", "diff_multi", "mw_diff", "transform_lin", "transform_log", "transform_cons", "transform_anon",
-              "lazy_diff", "bad_axis", "bad_to", "bad_boundary", "bad_fill", "diff_to_dict", "interp_to_none", "max_to_none_u"]
+              "lazy_diff", "bad_axis", "bad_to", "bad_boundary", "bad_fill", "diff_to_dict", "interp_to_none", "max_to_none_u",
+              "bad_set_metrics_list", "bad_set_metrics_new", "bad_set_metrics_occupied"]
 FACE_OPS = ["diff", "interp", "max", "vec_diff", "vec_interp", "vec_multi", "diff_2d_vector", "interp_2d_vector", "pad_scalar",
             "pad_vector", "lazy_vec", "bad_axis", "vec_no_other", "cumsum"]
 
@@ -85,6 +86,7 @@ def build_world(desc):
         for d in ("xc", "xg", "xo", "yc", "yg", "zc", "zo"):
             ds["d_" + d] = ((d,), r.integers(1, 9, size=ds.sizes[d]).astype(float))
         ds["area"] = (("yc", "xc"), r.integers(1, 9, size=(M, N)).astype(float))
+        ds["d_yc_other"] = (("yc",), r.integers(10, 19, size=M).astype(float))
         W["coords"] = {"X": {"center": "xc", "left": "xg", "outer": "xo"}, "Y": {"center": "yc", "left": "yg"}, "Z": {"center": "zc", "outer": "zo"}}
         W["ctor_boundary"] = [{"X": desc["rule"], "Z": "fill"}, {"X": desc["rule"], "Y": None, "Z": "fill"},
                               {"X": None, "Y": None, "Z": None}][desc["seed"] % 3]
@@ -218,6 +220,13 @@ def do(op, W, g, desc):
             return g.transform(W["dz"], "Z", W["levels"], target_data=W["td_anon"], mask_edges=False)
         if op == "lazy_diff":
             return g.diff(W["lazy"], W["axes_list"], to=W["T"], boundary=W["B"], fill_value=W["F"]).compute(scheduler="synchronous")
+        # registrations that are refused half-way must leave the registry as it was
+        if op == "bad_set_metrics_list":
+            return g.set_metrics("Y", ["d_yc_other", "no_such_variable"], overwrite=True)
+        if op == "bad_set_metrics_new":
+            return g.set_metrics(("Y", "Z"), "no_such_variable")
+        if op == "bad_set_metrics_occupied":
+            return g.set_metrics(("Y",), ["d_yc_other"])  # slot occupied, no overwrite: refused
         if op == "bad_axis":
             return g.diff(W["da"], ["X", "Q"], to=W["T"], boundary=W["B"])
         if op == "bad_to":
